@@ -59,7 +59,7 @@ def rand_pct_layout(rng, need_origin=False):
 
 def cases(ctx):
     rng = ctx.rng('c12')
-    for i in range(ctx.budget(2500, 150000)):
+    for i in range(ctx.budget(8000, 250000)):
         tag = f'P{ctx.shard}.{i}'
         r = rng.random()
         if r < 0.45:
